@@ -3,6 +3,7 @@
 package inmemory
 
 import (
+	"bytes"
 	"fmt"
 	"sort"
 	"strconv"
@@ -52,58 +53,159 @@ func c02OptHex(b []byte) string {
 	return vhHex(b)
 }
 
+// c02Scribble flips every byte of b in place.
+func c02Scribble(b []byte) {
+	for i := range b {
+		b[i] ^= 0xff
+	}
+}
+
+// c02Mut reports whether a callee wrote into a caller-owned argument slice.
+func c02Mut(before, after []byte) string {
+	if !bytes.Equal(before, after) {
+		return " !mut"
+	}
+	return ""
+}
+
 func c02Op(t *InMemoryTrie, op string) string {
 	f := strings.Fields(op)
 	if len(f) == 0 {
 		return "bad-op"
 	}
+	// caller-owned argument buffers and their snapshots
+	var a1, a2, s1, s2 []byte
+	if len(f) >= 2 {
+		a1 = vhUnhex(f[1])
+		s1 = append([]byte{}, a1...)
+	}
+	if f[0] == "put" && len(f) == 3 {
+		a2 = vhUnhex(f[2])
+		s2 = append([]byte{}, a2...)
+	}
 	switch {
 	case f[0] == "put" && len(f) == 3:
-		if err := t.Put(vhUnhex(f[1]), vhUnhex(f[2])); err != nil {
-			return "err " + c02Entries(t)
+		err := t.Put(a1, a2)
+		mut := c02Mut(s1, a1) + c02Mut(s2, a2)
+		out := c02Entries(t)
+		// the caller re-uses its key buffer: the stored state must not follow it
+		c02Scribble(a1)
+		if c02Entries(t) != out {
+			mut += " !alias-key"
 		}
-		return "ok " + c02Entries(t)
+		c02Scribble(a1)
+		if err != nil {
+			return "err " + out + mut
+		}
+		return "ok " + out + mut
 	case f[0] == "del" && len(f) == 2:
-		if err := t.Delete(vhUnhex(f[1])); err != nil {
-			return "err " + c02Entries(t)
+		err := t.Delete(a1)
+		mut := c02Mut(s1, a1)
+		if err != nil {
+			return "err " + c02Entries(t) + mut
 		}
-		return "ok " + c02Entries(t)
+		return "ok " + c02Entries(t) + mut
 	case f[0] == "clr" && len(f) == 2:
-		if err := t.ClearPrefix(vhUnhex(f[1])); err != nil {
-			return "err " + c02Entries(t)
+		err := t.ClearPrefix(a1)
+		mut := c02Mut(s1, a1)
+		if err != nil {
+			return "err " + c02Entries(t) + mut
 		}
-		return "ok " + c02Entries(t)
+		return "ok " + c02Entries(t) + mut
 	case f[0] == "clrl" && len(f) == 3:
 		n, err := strconv.ParseUint(f[2], 10, 32)
 		if err != nil {
 			return "bad-op"
 		}
-		deleted, all, err := t.ClearPrefixLimit(vhUnhex(f[1]), uint32(n))
+		deleted, all, err := t.ClearPrefixLimit(a1, uint32(n))
+		mut := c02Mut(s1, a1)
 		if err != nil {
-			return "err " + c02Entries(t)
+			return "err " + c02Entries(t) + mut
 		}
-		return fmt.Sprintf("%d %v %s", deleted, all, c02Entries(t))
+		return fmt.Sprintf("%d %v %s", deleted, all, c02Entries(t)) + mut
 	case f[0] == "get" && len(f) == 2:
-		return c02OptHex(t.Get(vhUnhex(f[1])))
+		v := t.Get(a1)
+		return c02OptHex(v) + c02Mut(s1, a1)
 	case f[0] == "next" && len(f) == 2:
-		return c02OptHex(t.NextKey(vhUnhex(f[1])))
+		before := c02Entries(t)
+		k := t.NextKey(a1)
+		out := c02OptHex(k)
+		// the returned key is the caller's: writing into it must not touch the trie
+		c02Scribble(k)
+		if c02Entries(t) != before {
+			out += " !alias-ret"
+		}
+		return out + c02Mut(s1, a1)
 	case f[0] == "keys" && len(f) == 2:
-		ks := t.GetKeysWithPrefix(vhUnhex(f[1]))
-		if len(ks) == 0 {
-			return "none"
+		before := c02Entries(t)
+		ks := t.GetKeysWithPrefix(a1)
+		out := "none"
+		if len(ks) > 0 {
+			parts := make([]string, len(ks))
+			for i, k := range ks {
+				parts[i] = vhHex(k)
+			}
+			out = strings.Join(parts, ",")
 		}
-		parts := make([]string, len(ks))
-		for i, k := range ks {
-			parts[i] = vhHex(k)
+		for _, k := range ks {
+			c02Scribble(k)
 		}
-		return strings.Join(parts, ",")
+		if c02Entries(t) != before {
+			out += " !alias-ret"
+		}
+		return out + c02Mut(s1, a1)
 	case f[0] == "entries" && len(f) == 1:
 		return c02Entries(t)
 	}
 	return "bad-op"
 }
 
+// c02Probe pins facts about slice ownership of the API (`probe <name>` lines of the corpus).
+func c02Probe(name string) string {
+	t := NewEmptyTrie()
+	k1, k2 := []byte{0x12, 0x34}, []byte{0x12, 0x56}
+	switch name {
+	case "put-retains-value":
+		// after Put(k, v) a write into v is visible through Get(k)
+		v := []byte{1, 2, 3}
+		_ = t.Put(k1, v)
+		v[0] = 9
+		return fmt.Sprint(t.Get(k1)[0] == 9)
+	case "put-retains-key":
+		k := []byte{0x12, 0x34}
+		_ = t.Put(k, []byte{1})
+		_ = t.Put(k2, []byte{2})
+		k[1] = 0x99
+		return fmt.Sprint(t.Get(k1) == nil)
+	case "get-returns-internal":
+		// a write into the slice returned by Get changes the stored value
+		_ = t.Put(k1, []byte{1, 2, 3})
+		t.Get(k1)[0] = 9
+		return fmt.Sprint(t.Get(k1)[0] == 9)
+	case "get-write-stale-hash":
+		// ... and Hash() keeps returning the cached root of the old value
+		_ = t.Put(k1, []byte{1, 2, 3})
+		_ = t.Put(k2, []byte{4})
+		h0 := t.MustHash()
+		t.Get(k1)[0] = 9
+		h1 := t.MustHash()
+		fresh := NewEmptyTrie()
+		for k, v := range t.Entries() {
+			_ = fresh.Put([]byte(k), append([]byte{}, v...))
+		}
+		return fmt.Sprintf("cached=%v fresh-differs=%v", h0 == h1, fresh.MustHash() != h1)
+	case "entries-returns-internal":
+		_ = t.Put(k1, []byte{1, 2, 3})
+		t.Entries()[string(k1)][0] = 9
+		return fmt.Sprint(t.Get(k1)[0] == 9)
+	}
+	return "bad-op"
+}
+
 func c02Run(line string) string {
+	if strings.HasPrefix(line, "probe ") {
+		return c02Probe(strings.TrimPrefix(line, "probe "))
+	}
 	i := strings.IndexByte(line, '|')
 	if i < 0 {
 		return "bad-op"
@@ -262,7 +364,46 @@ func c02GenOps(r *vhRng, p *c02Pool, nops int, val func(*vhRng) []byte) []string
 	return ops
 }
 
+// c02GenNested: a key that is a strict prefix of other keys holds the EMPTY value (present, not
+// absent); its neighbours are deleted / cleared so that the branch becomes a leaf or is merged.
+func c02GenNested(r *vhRng) string {
+	alpha := c02Alphabets[r.Intn(len(c02Alphabets))]
+	base := c02Key(r, alpha, 2)
+	var kids [][]byte
+	for i := 0; i < 2+r.Intn(3); i++ {
+		k := append(append([]byte{}, base...), alpha[r.Intn(len(alpha))])
+		kids = append(kids, append(k, c02Key(r, alpha, 1)...))
+	}
+	ops := []string{}
+	for _, k := range kids {
+		ops = append(ops, "put "+vhHex(k)+" "+vhHex(c02Value(r)))
+	}
+	ops = append(ops, "put "+vhHex(base)+" -")
+	for i := 0; i < 3+r.Intn(6); i++ {
+		k := kids[r.Intn(len(kids))]
+		switch r.Intn(8) {
+		case 0, 1, 2:
+			ops = append(ops, "del "+vhHex(k))
+		case 3:
+			ops = append(ops, "get "+vhHex(base))
+		case 4:
+			ops = append(ops, "next "+vhHex(base), "keys "+vhHex(k[:len(base)+1]))
+		case 5:
+			ops = append(ops, fmt.Sprintf("clrl %s %d", vhHex(k), 1+r.Intn(2)))
+		case 6:
+			ops = append(ops, "put "+vhHex(base)+" -", "put "+vhHex(k)+" -")
+		default:
+			ops = append(ops, "clr "+vhHex(k))
+		}
+	}
+	ops = append(ops, "get "+vhHex(base), "entries")
+	return "0|" + strings.Join(ops, ";")
+}
+
 func c02Gen(r *vhRng) string {
+	if r.Chance(1, 8) {
+		return c02GenNested(r)
+	}
 	p := c02NewPool(r)
 	nops := 2 + r.Intn(14)
 	if r.Chance(1, 6) {
